@@ -144,6 +144,8 @@ def parse_sidecars(directory):
                                 c.known.append(call)
                             elif n == 'refines':
                                 c.refines.append(ast.literal_eval(call.args[0]))
+                            elif n == 'use_abstract':
+                                c.uses_abstract = True
                         ident = rel + '::' + qual
                         if c.for_class:
                             ident += '@' + c.for_class
@@ -418,6 +420,8 @@ def gen_value(ty, rnd, mod, fields_decl, depth=0):
             return None
         if n == 'AbsList':
             return []
+        if n == 'ValSeq':
+            return [gen_value(ast.Name('Val'), rnd, mod, fields_decl) for _ in range(rnd.randrange(4))]
         if n == 'Float':
             return rnd.choice([0.0, 1.0, -1.5, 1e300, 5e-324, float('inf'), float('-inf'), 0.1, 123456.789])
         if n == 'IntOrMin':
@@ -528,6 +532,48 @@ def gen_object(cls, rnd, fields_decl, depth=0):
     return o
 
 
+ABSTRACT_TYPE_NAMES = {'Obj', 'ObjSeq', 'ValSeq', 'Exc'}
+
+
+def ann_is_abstract(ty):
+    for n in ast.walk(ty) if ty is not None else []:
+        if isinstance(n, ast.Call) and isinstance(n.func, ast.Name) and n.func.id in ABSTRACT_TYPE_NAMES:
+            return True
+        if isinstance(n, ast.Name) and n.id == 'Val':
+            return True
+    return False
+
+
+def eligible(c, cls, fields_decl):
+    """a contract is cross-checked natively only when it is closed: no ghost predicate, no abstract child object,
+    no opaque value parameter (otherwise the generated inputs are ill-typed for the real code)"""
+    exprs = list(c.requires) + list(c.ensures)
+    for (_e, when, _i, ens) in c.raises:
+        if when is not None:
+            exprs.append(when)
+        exprs.extend(ens)
+    if any(mentions_ghost(e) for e in exprs):
+        return False, 'ghost predicate in a clause'
+    if getattr(c, 'uses_abstract', False):
+        return False, 'abstract callee'
+    for p, ty in c.params.items():
+        if p != 'self' and ann_is_abstract(ty):
+            return False, 'abstract/opaque parameter %s' % p
+    if cls is not None:
+        # only the fields the clauses mention matter
+        mentioned = set()
+        for e in exprs:
+            for n in ast.walk(e):
+                if isinstance(n, ast.Attribute) and isinstance(n.value, ast.Name) and n.value.id == 'self':
+                    mentioned.add(n.attr)
+        for k2 in reversed(cls.__mro__):
+            if k2.__module__.startswith('asn1tools'):
+                for fname, ty in fields_decl.get((class_relpath(k2), k2.__name__), {}).items():
+                    if ann_is_abstract(ty) and fname in mentioned:
+                        return False, 'abstract field %s' % fname
+    return True, ''
+
+
 def run_crosscheck(repo_root, contracts_dir, idents, n, seed, time_limit=5, classmap=None):
     """bounded stand-in: n generated inputs per contract; returns JSON-able report"""
     cs, fields_decl, invs = parse_sidecars(contracts_dir)
@@ -539,6 +585,8 @@ def run_crosscheck(repo_root, contracts_dir, idents, n, seed, time_limit=5, clas
         base_ident = ident
         if ident not in cs and '@' in ident:
             base_ident = ident.split('@')[0] + '@*' + (('#' + ident.split('#')[1]) if '#' in ident else '')
+            if base_ident not in cs:
+                base_ident = base_ident.replace('@*', '@any')
         c = cs[base_ident]
         rnd = random.Random('%s/%s' % (seed, ident))
         rep = {'evaluations': 0, 'skipped': 0, 'violations': [], 'errors': [], 'outcomes': {}}
@@ -552,6 +600,20 @@ def run_crosscheck(repo_root, contracts_dir, idents, n, seed, time_limit=5, clas
         import inspect
         sig_params = list(inspect.signature(fn).parameters)
         distinct = set()
+        cls0 = None
+        if 'self' in sig_params and c.params.get('self') is None:
+            try:
+                if ident in classmap:
+                    cls0 = getattr(target_module(repo_root, classmap[ident][0]), classmap[ident][1])
+                else:
+                    cls0 = getattr(mod, c.for_class) if (c.for_class and c.for_class != '*') else \
+                        resolve_target(mod, c.qualname.rsplit('.', 1)[0])
+            except Exception:
+                cls0 = None
+        ok_, why = eligible(c, cls0, fields_decl)
+        if not ok_:
+            rep['not_cross_checked'] = why
+            continue
         for it in range(n):
             try:
                 args = {}
@@ -610,7 +672,9 @@ def run_crosscheck(repo_root, contracts_dir, idents, n, seed, time_limit=5, clas
 def replay(repo_root, contracts_dir, ident, inputs_json, ghosts_json=None, time_limit=10):
     cs, fields_decl, invs = parse_sidecars(contracts_dir)
     if ident not in cs and '@' in ident:
-        ident = ident.split('@')[0] + '@*' + (('#' + ident.split('#')[1]) if '#' in ident else '')
+        base = ident.split('@')[0]
+        tail = (('#' + ident.split('#')[1]) if '#' in ident else '')
+        ident = base + '@*' + tail if (base + '@*' + tail) in cs else base + '@any' + tail
     c = cs[ident]
     mod = target_module(repo_root, c.relpath)
     args = {k: from_json(v) for k, v in inputs_json.items()}
@@ -621,6 +685,7 @@ def replay(repo_root, contracts_dir, ident, inputs_json, ghosts_json=None, time_
 
 
 def main():
+    sys.setrecursionlimit(20000)
     req = json.load(sys.stdin)
     if req['cmd'] == 'crosscheck':
         out = run_crosscheck(req['repo'], req['contracts'], req['idents'], req['n'], req['seed'], req.get('time_limit', 5), req.get('classmap'))
